@@ -47,6 +47,38 @@ def scenario(draw, tier="quick"):
             "limits": draw(st.sampled_from([{}, {"max_live_trade_count": 2}, {"max_selection_exposure": 50, "max_order_exposure": 30}]))}
 
 
+@st.composite
+def resting_case(draw, tier="quick"):
+    """focused: all three strategies rest orders on the same runner at nearby prices, with queues ahead, and
+    small trades arrive - the situation in which sharing traded volume between strategies shows"""
+    spec = world.default_market(0, 2, bsp_market=False)
+    nt = len(world.ladder_prices(spec))
+    mid = draw(st.integers(20, 300))
+
+    def lvl():
+        return draw(st.sampled_from([0.5, 2.0, 10.0, 37.5, 120.0]))
+    atb = [[mid - 1 - i, lvl()] for i in range(4) if draw(st.integers(0, 3))]
+    atl = [[mid + 1 + i, lvl()] for i in range(4) if draw(st.integers(0, 3))]
+    steps = [{"dt": 1000, "k": "book", "rc": [{"r": 0, "atb": atb, "atl": atl}]}]
+    scripts = {}
+    for name in "ABC":
+        ops = []
+        for _ in range(draw(st.integers(1, 3))):
+            side = draw(st.sampled_from(["BACK", "LAY"]))
+            tick = mid + draw(st.integers(0, 4)) if side == "BACK" else mid - draw(st.integers(0, 4))
+            ops.append({"op": "place", "r": 0, "side": side, "type": "LIMIT", "tick": max(0, min(nt - 1, tick)),
+                        "size": gen.size_c(draw, 50, 3000) / 100, "pers": "PERSIST"})
+        scripts[name] = [{"m": 0, "at": draw(st.integers(1, 2)), "ops": ops}]
+    for _ in range(draw(st.integers(2, 10))):
+        trd = [[max(0, min(nt - 1, mid + draw(st.integers(-5, 5)))), gen.size_c(draw, 2, 6000) / 100]
+               for _ in range(draw(st.integers(1, 3)))]
+        steps.append({"dt": draw(st.sampled_from([200, 1000])), "k": "book", "rc": [{"r": 0, "trd": trd}]})
+    steps.append({"dt": 1000, "k": "suspend", "bump": True})
+    steps.append({"dt": 1000, "k": "close", "results": ["WINNER", "LOSER"]})
+    spec["steps"] = steps
+    return {"market": spec, "scripts": scripts, "own_client": draw(st.booleans()), "fault": None, "limits": {}}
+
+
 def build(c, names, fault=None):
     strategies = []
     for i, n in enumerate(names):
@@ -93,7 +125,7 @@ def check(c):
     base, seq0, _, _, lb0 = run(c, ["A"])
     ups = lb0.renderers[0].updates
     nontrivial = False
-    for names in (["A", "B"], ["B", "A"], ["A", "B", "C"]):
+    for names in (["A", "B"], ["B", "A"], ["A", "B", "C"], ["C", "B", "A"]):
         led, seq, order, _, lb = run(c, names)
         d = diff(base["A"], led["A"])
         if d:
@@ -238,13 +270,18 @@ def sub_runs(col, budget, seed, tier, shard, nshards):
     run_given(col, scenario(tier), check, budget, seed, tier, "runs")
 
 
+def sub_resting(col, budget, seed, tier, shard, nshards):
+    run_given(col, resting_case(tier), check, budget, seed, tier, "resting")
+
+
 def sub_dispatch(col, budget, seed, tier, shard, nshards):
     run_given(col, dispatch_case(), check_dispatch, budget, seed, tier, "dispatch")
 
 
 def subchecks(tier):
     q = tier == "quick"
-    return [SubCheck("runs", sub_runs, 2000 if q else 40000), SubCheck("dispatch", sub_dispatch, 160 if q else 2000)]
+    return [SubCheck("runs", sub_runs, 1600 if q else 40000), SubCheck("resting", sub_resting, 1200 if q else 40000),
+            SubCheck("dispatch", sub_dispatch, 160 if q else 2000)]
 
 
 def replay(c, sub=None):
